@@ -159,12 +159,27 @@ func awaitPandoraTermination(pandora *engine.Engine, gracefulShutdown func(), er
 			log.Fatal("Unexpected signal received. Quiting.", zap.Stringer("signal", sig))
 		}
 
+		timeout := time.After(interruptTimeout)
 		select {
-		case <-time.After(interruptTimeout):
+		case <-timeout:
 			log.Fatal("Interrupt timeout exceeded")
 		case sig := <-sigs:
 			log.Fatal("Another signal received. Quiting.", zap.Stringer("signal", sig))
 		case err := <-errs:
+			// Engine.Run returns as soon as its context is canceled, started tasks are still
+			// finishing in background: aggregators have to drain, flush and close results.
+			tasksDone := make(chan struct{})
+			go func() {
+				pandora.Wait()
+				close(tasksDone)
+			}()
+			select {
+			case <-timeout:
+				log.Fatal("Interrupt timeout exceeded")
+			case sig := <-sigs:
+				log.Fatal("Another signal received. Quiting.", zap.Stringer("signal", sig))
+			case <-tasksDone:
+			}
 			log.Fatal("Engine interrupted", zap.Error(err))
 		}
 
